@@ -8,6 +8,8 @@
 import Hw.Io.CalcLemmas
 import Hw.Io.CalcStdin
 import Hw.Io.CalcAttrLemmas
+import Hw.Io.CalcAttrRefine
+import Hw.Io.CalcAttrBest
 import Hw.Bitmap.Order
 import Hw.Bitmap.CompareFirst
 namespace Hw.Props.C20
@@ -421,6 +423,48 @@ theorem C20_calc_local_memory (d : Dump) (cs flags : Nat) :
              ((numaObjs d).filter (fun o => MemAttrs.matchLocal flags cs (maObj o))).map maObj)) ∧
     (8 ≤ flags → localNumaObjs d cs flags = none) :=
   ⟨localNumaObjs_spec d cs flags, localNumaObjs_badflags d cs flags⟩
+
+/-- the widened option loop is the old one wherever the old one goes through (the four memory options made the old one `skip`) -/
+theorem C20_calc_attr_loop_extends (c : Ctx) (argv : List Bytes) (s s' : St) (xs : XSt) (h : argLoop c s argv = .ok s') :
+    argLoopX c s xs argv = .ok (s', xs) :=
+  argLoopX_of_argLoop c argv.length argv s s' xs (Nat.le_refl _) h
+
+/-- conservative extension: without `--cpukind`, without the four memory options (the old loop goes through) and without the
+    cpukind / memorytier pseudo levels, the widened model `calcMainX` is the old `calcMain` whatever CPU kinds and memory attribute
+    values the topology has — C20_calc_fold … C20_calc_stdin_line_eq_cmdline keep describing what the driver answers -/
+theorem C20_calc_attr_conservative (d : Dump) (x : Extra) (argv : List Bytes) (stdin : Bytes) (s : St)
+    (h0 : ∀ a, argv.head? = some a → isOpt topoOpts a = false)
+    (hs : argLoop (mkCtx d) {} argv = .ok s)
+    (hn : pseudoOf s.numberOf = none) (hi : pseudoOf s.intersect = none) :
+    calcMainX d x argv stdin = calcMain d argv stdin :=
+  calcMainX_eq_calcMain d x argv stdin s h0 hs hn hi
+
+/-- non-vacuity: `-q -N numa` (stdin mode) meets the hypotheses -/
+example : (∀ a, [str "-q", str "-N", str "numa"].head? = some a → isOpt topoOpts a = false) ∧
+    (match argLoop (mkCtx exDump) {} [str "-q", str "-N", str "numa"] with
+     | .ok s => pseudoOf s.numberOf == none && pseudoOf s.intersect == none
+     | .error _ => false) = true := by
+  refine ⟨?_, by decide⟩
+  intro a h; cases h; decide
+
+/-- `--best-memattr <attr>` for an attribute without initiator, when at least one local node has a value: the filter is exactly
+    the set of os_indexes of the local nodes whose value is the best one (highest for HIGHER_FIRST, lowest otherwise; ties are all
+    kept), whatever the DEFAULT / STRICT flags -/
+theorem C20_calc_best_memattr_values (a : XAttr) (nodes : List Obj) (dflt strict : Bool) (cs : Nat) (inf : Bool) (dns : Nat)
+    (hni : a.flags.testBit 2 = false) (p : Nat × Nat) (r : List (Nat × Nat)) (hv : valuePairs a nodes = p :: r) :
+    bestNodeFilter a dflt strict cs inf dns nodes = (bestValueLoop a nodes).2 ∧
+    (∃ q ∈ valuePairs a nodes, q.2 = (bestValueLoop a nodes).1) ∧
+    (∀ q ∈ valuePairs a nodes, asGood (a.flags.testBit 0) (bestValueLoop a nodes).1 q.2) ∧
+    (∀ j, (bestValueLoop a nodes).2.testBit j = true ↔ ∃ q ∈ valuePairs a nodes, q.1 = j ∧ q.2 = (bestValueLoop a nodes).1) := by
+  have inv := bestFold_spec (a.flags.testBit 0) p r
+  rw [← hv, ← bestValueLoop_eq] at inv
+  refine ⟨?_, inv.attained, inv.best, inv.set⟩
+  unfold bestNodeFilter
+  have hnz : ((bestValueLoop a nodes).2 != 0) = true := by simpa using inv.nz
+  simp only [hni, Bool.false_eq_true, if_false, hnz, if_true]
+
+/-- non-vacuity: two nodes with values 5 and 7 under a HIGHER_FIRST attribute: the second one is kept -/
+example : bestFold true (0, 0) [(0, 5), (1, 7), (2, 7)] = (7, 6) := by decide
 
 /-- non-vacuity / tests on `core:2 pu:1` with two registered kinds {PU0} (CoreType=big) and {PU1}, and a `Speed` attribute -/
 def exExtra : Extra :=
